@@ -41,7 +41,7 @@ HARNESSES = [
                 "ext2fs_group_blocks_count", "ext2fs_bg_free_blocks_count_set"],
          configs=[{"LOGBS": 0, "BPG": 256, "ISIZE": 128, "IS64": 0, "MAXG": 4}],
          unwind=3, unwindset=INIT_UW(4),
-         backends=["kissat", "default", "z3"],
+         backends=["default", "kissat"], cap_quick=240,
          bound="TBD"),
     dict(name="count_used", src="count_used.c", extra_src=BM_SRC,
          funcs=["ext2fs_count_used_blocks", "ext2fs_find_first_set_generic_bmap",
